@@ -43,12 +43,12 @@ func (g *c04gen) program() string {
 		"a * 2 + g0",                  // reads a global
 		"println(\"leaf\", a); a + 1", // print side effect
 		"if a > 2 { error(\"too big\", a) } else { a }",
-		"g2[a % 3] + b",    // reads a global container
-		"a + g1 + g0",      // two globals
-		"len(str(a)) + b",  // grol-defined helper
-		"if a <= 0 { 0 } else { a + self(a - 1, b) }", // recursion
-		"if a <= 0 { 0 } else { g0 + self(a - 1, b) }", // recursion whose every level reads a global before recursing
-		"y = g1; h = func() { g1 * 2 }; y + h() + a",   // a lambda reading the global its parent already read
+		"g2[a % 3] + b",   // reads a global container
+		"a + g1 + g0",     // two globals
+		"len(str(a)) + b", // grol-defined helper
+		"if a <= 0 { 0 } else { a + self(a - 1, b) }",                                            // recursion
+		"if a <= 0 { 0 } else { g0 + self(a - 1, b) }",                                           // recursion whose every level reads a global before recursing
+		"y = g1; h = func() { g1 * 2 }; y + h() + a",                                             // a lambda reading the global its parent already read
 		"r = catch(if a > 1 { error(\"no\", g0) } else { a }); if r.err { -1 } else { r.value }", // caught error depending on a global
 	}
 	nLeaf := 3 + g.r.Intn(3)
